@@ -97,7 +97,18 @@ L3 == CL("star3-K80-2loci", "(a,b,c)", <<0, 1, 1, 1>>, <<"", "a", "b", "c">>, <<
          <<One, One, Half, Half>>, 3, <<3, 5>>, <<2, 1>>,
          << ColsOf(4, {2, 3, 4}, << <<>>, <<"A", "C", "G", "T", "A">>, <<"G", "C", "G", "T", "R">>, <<"A", "T", "G", "C", "A">> >>),
             ColsOf(4, {2, 3, 4}, << <<>>, <<"T", "T", "C">>, <<"C", "T", "N">>, <<"T", "A", "C">> >>) >>, TRUE)
+(* tree shapes for the root-free parameter scopes of Invariance.tla (two columns only: the scopes need the tree, not the data) *)
+TwoCols(n, leaves) == << [m \in 1..n |-> IF m \in leaves THEN "A" ELSE "N"], [m \in 1..n |-> IF m \in leaves THEN (IF m % 2 = 0 THEN "C" ELSE "T") ELSE "N"] >>
+P4s == [P4f EXCEPT !.id = "trifurcation4-scopes", !.cols = TwoCols(6, {2, 3, 5, 6}), !.nbrute = 2, !.normalise = FALSE]
+B4s == [B4k8 EXCEPT !.id = "balanced4-scopes", !.cols = TwoCols(7, {4, 5, 6, 7}), !.nbrute = 2, !.normalise = FALSE]
+(* 5 tips, root trifurcation over two cherries and a tip: ((a,b)ab,(c,d)cd,e): nodes 1 root, 2 ab, 3 cd, 4 e, 5 a, 6 b, 7 c, 8 d *)
+T5s == C("trifurcation5-scopes", "((a,b)ab,(c,d)cd,e)", <<0, 1, 1, 1, 2, 2, 3, 3>>, <<"", "", "", "e", "a", "b", "c", "d">>,
+         <<"", "ab", "cd", "e", "a", "b", "c", "d">>, <<0, 4, 4, 4, 4, 4, 4, 4>>, 4,
+         <<One, Half, Third, Half, Half, Third, Half, TwoThirds>>, <<>>, <<>>, TwoCols(8, {4, 5, 6, 7, 8}), 2, FALSE)
+ScopeConfigs == <<P4s, B4s, T5s>>
 HmmConfigs == <<H2, H3, H2eq>>
 QuickConfigs == <<T2, S3jc, R3hk, R3sc, S3bins, T2bins, H2, H3, H2eq, L3>>
 AllConfigs == <<T2, S3jc, S3tn, R3hk, R3sc, B4k8, P4f, S4jc, S3bins, T2bins, H2, H3, H2eq, L3>>
+QuickInvConfigs == QuickConfigs \o ScopeConfigs
+AllInvConfigs == AllConfigs \o ScopeConfigs
 =============================================================================
